@@ -288,7 +288,9 @@ fn render_fixture(w: &mut W, out: &mut Rendered, f: &FixtureSpec, item_idx: usiz
     let mut deps = Vec::new();
     // `body / 3 == 1`: the signature is wrapped, one parameter per line with a trailing comma; the
     // parameters then sit on continuation lines of the definition
-    let wrapped = (f.body / 3) % 2 == 1 && !f.deps.is_empty();
+    // `body >= 6`: the whole function on one physical line (docstring and return after the colon)
+    let oneline = f.body >= 6 && f.body_uses.is_empty();
+    let wrapped = !oneline && (f.body / 3) % 2 == 1 && !f.deps.is_empty();
     if wrapped {
         w.push(s.clone());
         s = String::new();
@@ -318,14 +320,18 @@ fn render_fixture(w: &mut W, out: &mut Rendered, f: &FixtureSpec, item_idx: usiz
             in_func: Some(func_name.clone()),
         });
     }
-    let is_gen = f.body % 3 != 0;
-    if is_gen {
+    let is_gen = !oneline && f.body % 3 != 0;
+    if oneline {
+        s.push_str(&format!(") -> {}: \"\"\"DOC{}\"\"\"; return 1", tag_type(f.tag), f.tag));
+    } else if is_gen {
         s.push_str(&format!(") -> Generator[{}, None, None]:", tag_type(f.tag)));
     } else {
         s.push_str(&format!(") -> {}:", tag_type(f.tag)));
     }
     w.push(s);
-    w.push(format!("    \"\"\"DOC{}\"\"\"", f.tag));
+    if !oneline {
+        w.push(format!("    \"\"\"DOC{}\"\"\"", f.tag));
+    }
     let body_first = w.cur() - 1;
     for n in &f.body_uses {
         let l = "    setup(".to_string();
@@ -334,7 +340,8 @@ fn render_fixture(w: &mut W, out: &mut Rendered, f: &FixtureSpec, item_idx: usiz
         w.push(format!("{}{})", l, NAMES[*n]));
     }
     let mut yield_line = None;
-    match f.body % 3 {
+    match if oneline { 9 } else { f.body % 3 } {
+        9 => {}
         0 => w.push("    return 1".to_string()),
         1 => {
             yield_line = Some(w.cur());
